@@ -110,32 +110,20 @@ example : ∃ pp, run 300 Mhd.Gen.PP.encUrl [encodeUrl [([0x6B, 0x20, 0x79], [0,
 
 /-! ## multipart/form-data -/
 
-/-
-  Full statement (not proved in this form):
-
-    theorem multipart_all_inputs (n ctype pp0 chunks) (hc : create n ctype = some pp0) (hu : pp0.isUrl = false) :
-      (destroy (feedAll pp0 chunks)).1.fault = none ∧ (… the two delivery clauses below …)
-
-  What is missing for it: a proof that the fuel the *model* gives the `while` loop of
-  `post_process_multipart` (8·(chunk length + buffered bytes) + 16 iterations, `PPMulti.postProcessMultipart`)
-  always suffices, i.e. a termination measure for that loop.  The model reports exhaustion as the
-  distinguished fault `multipart-fuel`; the correspondence run would show it as a model/code difference.
--/
-
 /-- Multipart, **every input (well-formed or not), every split, every buffer size and boundary**:
-    unless the model's loop fuel runs out, no access leaves an object (`fault = none` — in particular
-    the window `buf[0 .. buffer_pos)` is never read beyond `buffer_pos`, `memmove` never gets a negative
-    size, the nested boundary is never NULL where it is used, `MHD_PANIC` is never reached);
+    no access leaves an object (`fault = none` — in particular the window `buf[0 .. buffer_pos)` is
+    never read beyond `buffer_pos`, `memmove` never gets a negative size, the nested boundary is never
+    NULL where it is used, `MHD_PANIC` is never reached) and the `while` loop of
+    `post_process_multipart` terminates (a potential that every iteration lowers: `Mhd.PP.phi`);
     **no fabricated data**: every delivered value byte is a byte of the input; and if every
     `MHD_post_process` call returned `MHD_YES`, every delivered piece is a contiguous piece of the input. -/
-theorem multipart_all_inputs_partial (n : Nat) (ctype : Bytes) (pp0 : PP) (chunks : List Bytes)
+theorem multipart_all_inputs (n : Nat) (ctype : Bytes) (pp0 : PP) (chunks : List Bytes)
     (hc : create n ctype = some pp0) (hu : pp0.isUrl = false) :
-    (destroy (feedAll pp0 chunks)).1.fault = fuelFault ∨
-    ((destroy (feedAll pp0 chunks)).1.fault = none ∧
+    (destroy (feedAll pp0 chunks)).1.fault = none ∧
       (∀ e ∈ (destroy (feedAll pp0 chunks)).1.evs, ∀ b ∈ e.data, b ∈ chunks.flatten) ∧
       ((feedAllYes pp0 chunks).2 = true →
-        ∀ e ∈ (destroy (feedAll pp0 chunks)).1.evs, e.data <:+: chunks.flatten)) :=
-  multipart_all_inputs n ctype pp0 chunks hc hu
+        ∀ e ∈ (destroy (feedAll pp0 chunks)).1.evs, e.data <:+: chunks.flatten) :=
+  Mhd.PP.multipart_all_inputs n ctype pp0 chunks hc hu
 
 /-- Non-vacuity: `multipart/form-data; boundary=AaB03x` with the smallest buffer creates a multipart
     post processor, so the hypotheses above are satisfiable (for every chunk list). -/
